@@ -681,3 +681,136 @@ def sm_apply(ctx):
                    "transform is applied transposed or the bias scaling is wrong, so the "
                    "parameter table (sm_<out><in> = T[out, in]) and the estimator's correction "
                    "no longer describe the simulated error" % (mode, bad, k))
+
+
+# ----------------------------------------------------------------------- SM-GATE
+class _Undecided(Exception):
+    pass
+
+
+def _pred(e, env):
+    """Own semantics of the small pure predicates used as enabling flags."""
+    if isinstance(e, ast.Constant):
+        return e.value
+    if isinstance(e, ast.Name):
+        if e.id in env:
+            return env[e.id]
+        raise _Undecided(e.id)
+    if isinstance(e, ast.UnaryOp) and isinstance(e.op, ast.Not):
+        return not _pred(e.operand, env)
+    if isinstance(e, ast.BoolOp):
+        vals = [_pred(x, env) for x in e.values]
+        if isinstance(e.op, ast.And):
+            r = True
+            for x in vals:
+                r = r and x
+            return r
+        r = False
+        for x in vals:
+            r = r or x
+        return r
+    if isinstance(e, ast.Compare) and len(e.ops) == 1:
+        a, b = _pred(e.left, env), _pred(e.comparators[0], env)
+        op = e.ops[0]
+        table = {ast.Eq: lambda: a == b, ast.NotEq: lambda: a != b, ast.Gt: lambda: a > b,
+                 ast.GtE: lambda: a >= b, ast.Lt: lambda: a < b, ast.LtE: lambda: a <= b,
+                 ast.Is: lambda: a is b, ast.IsNot: lambda: a is not b}
+        if type(op) in table:
+            return table[type(op)]()
+        raise _Undecided('compare')
+    if isinstance(e, ast.Call) and isinstance(e.func, ast.Name) and not e.keywords:
+        args = [_pred(x, env) for x in e.args]
+        fn = e.func.id
+        if fn == 'bool' and len(args) == 1:
+            return bool(args[0]) if not isinstance(args[0], list) else len(args[0]) > 0
+        if fn == 'len' and len(args) == 1 and isinstance(args[0], (list, tuple)):
+            return len(args[0])
+        if fn == 'any' and len(args) == 1 and isinstance(args[0], list):
+            return any(x != 0 for x in args[0])          # truth of an int is "non-zero"
+        if fn == 'all' and len(args) == 1 and isinstance(args[0], list):
+            return all(x != 0 for x in args[0])
+        if fn == 'sum' and len(args) == 1 and isinstance(args[0], list):
+            return sum(args[0])
+        if fn in ('max', 'min') and len(args) == 1 and isinstance(args[0], list) and args[0]:
+            return max(args[0]) if fn == 'max' else min(args[0])
+        if fn in ('list', 'tuple', 'sorted') and len(args) == 1 and isinstance(args[0], list):
+            return list(args[0])
+        raise _Undecided(fn)
+    if isinstance(e, ast.List) and not e.elts:
+        return []
+    raise _Undecided(type(e).__name__)
+
+
+def sm_gate(ctx):
+    ctx.rule('SM-GATE', 'a flag that gates the use of a list of state / axis indices is true '
+             'exactly when the list is non-empty (index 0 is a valid element: the flag is decided '
+             'by length, never by element values)')
+    em = ctx.repo.klass('inertial_sensor.EstimationModel')
+    init = em.methods.get('__init__')
+    ctx.need(init is not None, 'EstimationModel.__init__ missing')
+    ctx.touch(init)
+    lists = set()
+    for n in ast.walk(init.node):
+        if isinstance(n, ast.Assign) and len(n.targets) == 1 and \
+                isinstance(n.targets[0], ast.Name) and isinstance(n.value, ast.List) and \
+                not n.value.elts:
+            lists.add(n.targets[0].id)
+    appended = {}
+    for n in ast.walk(init.node):
+        if isinstance(n, ast.Call) and isinstance(n.func, ast.Attribute) and \
+                n.func.attr == 'append' and isinstance(n.func.value, ast.Name) and \
+                n.func.value.id in lists and n.args:
+            appended.setdefault(n.func.value.id, []).append(n.args[0])
+    # index lists: what is appended is a range() loop variable or an integer counter
+    loopvars = {n.target.id for n in ast.walk(init.node) if isinstance(n, ast.For) and
+                isinstance(n.target, ast.Name) and isinstance(n.iter, ast.Call) and
+                norm_text(n.iter.func) == 'range'}
+    counters = {n.target.id for n in ast.walk(init.node) if isinstance(n, ast.AugAssign) and
+                isinstance(n.target, ast.Name) and isinstance(n.value, ast.Constant)}
+    index_lists = {k for k, vs in appended.items()
+                   if all(isinstance(v, ast.Name) and v.id in loopvars | counters for v in vs)}
+    # gating attributes: read in a boolean test by some method
+    gates = set()
+    for m in em.methods.values():
+        for n in ast.walk(m.node):
+            tests = []
+            if isinstance(n, (ast.If, ast.IfExp, ast.While)):
+                tests.append(n.test)
+            for t in tests:
+                for x in ast.walk(t):
+                    if isinstance(x, ast.Attribute) and isinstance(x.value, ast.Name) and \
+                            x.value.id == 'self':
+                        gates.add(x.attr)
+    witnesses = [[], [0], [0, 0], [2], [0, 1], [1, 2]]
+    n_dec = 0
+    for st in ast.walk(init.node):
+        if not (isinstance(st, ast.Assign) and len(st.targets) == 1 and
+                isinstance(st.targets[0], ast.Attribute) and
+                isinstance(st.targets[0].value, ast.Name) and
+                st.targets[0].value.id == 'self' and st.targets[0].attr in gates):
+            continue
+        used = {x.id for x in ast.walk(st.value) if isinstance(x, ast.Name)} & index_lists
+        if not used or isinstance(st.value, ast.Name):
+            continue
+        bad = None
+        try:
+            for w in witnesses:
+                got = _pred(st.value, {k: list(w) for k in used})
+                if bool(got) != (len(w) > 0):
+                    bad = (w, got)
+                    break
+        except _Undecided as e:
+            ctx.ob('SM-GATE', None, None, 'flag %s: predicate not evaluable (%s)'
+                   % (st.targets[0].attr, e), f=init, node=st)
+            continue
+        n_dec += 1
+        ctx.ob('SM-GATE', bad is None, None,
+               "flag '%s' = `%s` is true exactly when %s is non-empty"
+               % (st.targets[0].attr, norm_text(st.value), sorted(used)), f=init, node=st,
+               key='gate-' + st.targets[0].attr,
+               why="flag '%s' = `%s` evaluates to %r for the index list %r: a model whose only "
+                   "enabled terms have index 0 (x axis / first state) is treated as having "
+                   "none, so the part of the model gated by the flag is silently skipped"
+                   % (st.targets[0].attr, norm_text(st.value), bad[1] if bad else None,
+                      bad[0] if bad else None))
+    ctx.floor('SM-GATE', n_dec, 1, 'gating flags computed from index lists')
